@@ -113,12 +113,21 @@ class Watch:
         self.dlen = dlen
         self.problems = []
         self.observed = 0
+        self.pulled = 0
         self.prev = 0
         self.fed = 0
         self.sinks = []
         self.file_start, self.file_end = file_span if file_span else (None, None)
 
     def check(self, frame, i):
+        self.pulled = i  # chunks handed over so far (whoever asks: the helper itself or something it put in between)
+        # the sink: file bytes received so far minus what the sink has been given (observed through the sink object itself,
+        # not through the helper's variables)
+        if self.file_start is not None:
+            received = max(0, min(self.fed, self.file_end) - self.file_start)
+            written = len(self.sinks[-1].data) if self.sinks else 0
+            if received - written > self.prev + self.dlen + SLACK:
+                self.problems.append(f"after chunk {i - 1}: {received} bytes of the upload received but only {written} handed to the file sink")
         loc = frame.f_locals if frame is not None else {}
         parser = loc.get("parser")
         if parser is None or not hasattr(parser, "buffer"):
@@ -126,13 +135,6 @@ class Watch:
         self.observed += 1
         if MP.state_name(parser) == "DATA" and len(parser.buffer) > self.prev + self.dlen + SLACK:
             self.problems.append(f"after chunk {i - 1} ({self.prev} bytes) the decoder still holds {len(parser.buffer)} bytes")
-        # the sink: file bytes received so far minus what the sink has been given (observed through the sink object itself,
-        # not through the helper's variables)
-        if self.sinks and self.file_start is not None:
-            received = max(0, min(self.fed, self.file_end) - self.file_start)
-            written = len(self.sinks[-1].data)
-            if received - written > self.prev + self.dlen + SLACK:
-                self.problems.append(f"after chunk {i - 1}: {received} bytes of the upload received but only {written} handed to the file sink")
 
     def factory(self, base):
         watch = self
@@ -208,7 +210,7 @@ def run_helperbuf(r, k):
                         r.violation(f"buffering:limit-not-enforced:{mode}", wit, f"{mode} helper: {run + len(lead)}-byte field with max_form_memory_size=100 gave {outcome}")
                     else:
                         header_len = body.index(b"\r\n\r\n") + 4
-                        consumed = sum(len(c) for c in chunks[:w.observed]) if w.observed else None
+                        consumed = sum(len(c) for c in chunks[:w.pulled + 1])  # the limit tripped while chunk number `pulled` was being digested
                         if consumed is not None and consumed - header_len > 100 + size + len(boundary) + 4 + SLACK:
                             r.violation(f"buffering:limit-enforced-late:{mode}", wit,
                                         f"{mode} helper: field limit 100 was enforced only after {consumed - header_len} field bytes had been received (chunk size {size})")
